@@ -9,8 +9,7 @@ CORR_MODULES = ["Disc.MatchedCorr"]
 PREFIX = "C16"
 CASE_TYPE = "C16_case"
 HARNESS = "disc"
-KNOWN = {1: "C16-update-recounted", 2: "C16-incompatible-update-stays-matched",
-         3: "C16-participant-removal-keeps-counts", 4: "C16-stale-rtps-proxy"}
+KNOWN = {}
 RULE = ("one case = one simulated scenario (real stack, 3 participants, in-memory network, simulated clock): "
         "remote endpoints are created, their QoS updated (compatible / incompatible deadline, user data), deleted, "
         "their participant leaves (gracefully, with lost SEDP, by lease expiry, by ignore_participant), interleaved with "
@@ -24,8 +23,7 @@ TRUSTED = ["theories/Disc/MatchedModel.v is a hand transcription of process_disc
            "(checked: a wrong translation shows up as a model disagreement)"]
 ASSUMPTIONS = ["QoS compatibility is abstracted to the topic name and the deadline rule (all other policies equal in the scenarios); "
                "the RxO rules themselves are C15",
-               "no listeners installed (a listener call also resets the change fields)",
-               "on the unchanged tree the property is FALSE in four recorded classes (known findings); outside them it is proved and observed"]
+               "no listeners installed (a listener call reads the matched status and so resets the change fields)"]
 
 S = 10**9
 LDLS = [-1, 1 * S, 2 * S]
@@ -268,17 +266,17 @@ def gen_case(r, tier, classes_allowed=True):
 
 
 def gen(r, tier):
-    n = {"quick": 60, "search": 400, "thorough": 1000}[tier]
+    n = {"quick": 40, "search": 400, "thorough": 1000}[tier]
     cases = []
     for i in range(n):
-        cases.append(gen_case(r, tier, classes_allowed=(i % 3 != 0)))
+        cases.append(gen_case(r, tier))
     return cases
 
 
 def corpus():
     S2 = 2 * S
     return [
-        # the four defect classes, minimal
+        # regression: the four defect classes of the first version (fixed: 63bcd2c, 34a7046, 9eb0989, 6603216), minimal
         {"side": "Wr", "ldl": S, "crash": [], "ev": [["new", 1, 0, -1, 0], ["read"], ["upd", 0, -1, 7], ["read"], ["list"]]},
         {"side": "Wr", "ldl": S, "crash": [], "ev": [["new", 1, 0, -1, 0], ["read"], ["upd", 0, 500_000_000, 0], ["read"], ["list"], ["send", 1]]},
         {"side": "Wr", "ldl": S, "crash": [], "ev": [["new", 1, 0, -1, 0], ["read"], ["lossy", 1], ["read"], ["list"]]},
@@ -314,16 +312,16 @@ MANIFEST = {
     "text": ("Machine-checked proof (Coq) over a model of the matched-endpoint bookkeeping of a DataWriter / DataReader "
              "(process_discovered_readers/writers, remove_discovered_reader/writer, remove_discovered_participant, "
              "remove_stale_participants, status getters), for ALL histories of discovery actions and status reads and any "
-             "compatibility predicate: with the proposed patch current_count = |matched set|, total_count counts each "
-             "unmatched->matched transition once, the change fields are the differences since the last read and the RTPS "
-             "proxy set equals the matched set; on the unchanged code the same holds for every history that stays outside "
-             "four recorded defect classes, and each class is refuted by a witness. The model is tied to the code by "
-             "whole-stack simulation: hundreds of generated scenarios run the real stack and every observed status, "
-             "matched list and datagram destination is compared with the model inside Coq; the property oracle "
-             "(an independent specification of the matched set) is applied to the implementation's own answers."),
-    "note": ("Unchanged tree: property FALSE in 4 known classes (QoS update of a matched endpoint recounted / left matched when "
-             "incompatible; participant removal without status update and with re-match from the stale discovered list; "
-             "stale RTPS proxy after endpoint deletion). Trusted: Coq kernel + vm_compute, hand model, simulator harness, "
-             "scenario-to-action translation in props/C16.py."),
+             "compatibility predicate: every status read returns (total, total since last read, |matched set|, change of "
+             "|matched set| since last read) of an independent specification of the matched set, current_count = length of the "
+             "matched list, total_count counts each unmatched->matched transition once, and the RTPS proxy set equals the "
+             "matched set (no DATA/HEARTBEAT to a deleted, incompatible or departed endpoint). The model is tied to the code by "
+             "whole-stack simulation: generated scenarios (endpoint creation, compatible/incompatible QoS updates, deletion, "
+             "graceful / lossy departure, lease expiry, ignore_participant) run the real stack and every observed status, "
+             "matched list and datagram destination is compared with the model inside Coq; the specification is applied as "
+             "oracle to the implementation's own answers."),
+    "note": ("Holds on the current tree; the four defect classes found by the first version of this check were repaired by "
+             "commits 63bcd2c, 34a7046, 6603216, 9eb0989 and their scenarios are regression cases. Trusted: Coq kernel + "
+             "vm_compute, hand model, simulator harness, scenario-to-action translation in props/C16.py."),
     "technique": "Coq refinement proof (model vs. specification of the matched set) + whole-stack simulation correspondence",
 }
